@@ -115,6 +115,27 @@ Theorem C14_load_then_save_refuted :
 Proof. exact load_then_save_refuted. Qed.
 Print Assumptions C14_load_then_save_refuted.
 
+(* an update is a function of the STORED record, read under the lock - never of the writer's cached
+   copy: the stored record after any schedule is the same whatever the writers had cached *)
+Theorem C14_update_independent_of_cache : forall (R : Type) (r0 : R) (progs1 progs2 : list (list (op R) * R)) sched,
+  map fst progs1 = map fst progs2 ->
+  let c1 := run true sched (init (FRec r0) progs1) in
+  let c2 := run true sched (init (FRec r0) progs2) in
+  c_lock c1 = None -> no_saves (c_order c1) = true ->
+  c_file c1 = c_file c2.
+Proof. exact update_independent_of_cache. Qed.
+Print Assumptions C14_update_independent_of_cache.
+
+(* ... and the shortcut "my cached record already has these values, skip the update" (seeded
+   mutation) drops an update while reporting success: set 1, other writer sets 2, set 1 again *)
+Theorem C14_cached_shortcut_refuted :
+  let c := run_cached same_nn repeat_sched (init (FRec (0, 0)) repeat_writers) in
+  let c' := run true repeat_sched (init (FRec (0, 0)) repeat_writers) in
+  all_done c = true /\ c_file c = FRec (2, 0) /\
+  all_done c' = true /\ c_file c' = FRec (1, 0).
+Proof. exact cached_shortcut_refuted. Qed.
+Print Assumptions C14_cached_shortcut_refuted.
+
 (* non-vacuity: with the lock, the schedule of the refutation (completed) loses nothing *)
 Example C14_nonvacuous :
   let c := run true (lost_sched ++ [1; 1; 1; 1; 1; 1; 1]%nat) (init (FRec (0, 0)) two_writers) in
